@@ -179,18 +179,21 @@ def hexLow (n : Nat) : Char := hexDigit n
 def escNonASCII (l : List Char) : List Char :=
   l.flatMap fun c => if c.toNat < 0x80 then [c] else ['%', hexLow (c.toNat / 16 % 16), hexLow (c.toNat % 16)]
 
-/-- `loc name url location`: the authorize handler answered 302 with this `Location` -/
+/-- `loc name url location gohost`: the authorize handler answered 302 with this `Location`;
+`gohost` is the `Hostname()` Go reported for the redirect_uri -/
 def locOp (st : St) : List String → String
-  | [name, hu, hl] =>
-    match findCfg st name, unhexC hu, unhexC hl with
-    | some cfg, some s, some loc =>
+  | [name, hu, hl, hh] =>
+    match findCfg st name, unhexC hu, unhexC hl, unhexC hh with
+    | some cfg, some s, some loc, some host =>
       let doms := cfg.client.domains
       let pre := escNonASCII s ++ "?code=".toList
       problems [
         (pre.isPrefixOf loc, "location-is-not-redirect-uri-plus-code"),
+        (host != [], "empty-host"),
+        (agrees loc host, "location-browser-host-differs"),
         (browserHost loc == browserHost s, "location-host-differs-from-redirect-uri-host"),
         (doms.isEmpty || browserInDomains loc doms, "location-host-not-in-domains")]
-    | _, _, _ => "bad-op"
+    | _, _, _, _ => "bad-op"
   | _ => "bad-op"
 
 def judgeStep (st : St) : List String → St × String
